@@ -46,6 +46,8 @@ def run_case(rng, tier, case):
     for a in spec['assets']:
         if a['type'] == 'OrderBook' and rng.random() < 0.5 and g['tz'] is None:     # (a DataFrame drops the zone of its dates: usable on naive grids only)
             a['_orders_as_df'] = True
+    if g['tz'] is not None and rng.random() < 0.15:
+        g['x_zone_in_dates'] = True; case.feature('grid_zone_in_dates_only')
     for a in spec['assets']:
         if a['type'] in ('Plant', 'CHPAsset') and rng.random() < 0.4:
             a['freq'] = g['freq']           # a plant may state the frequency it is meant for (it must equal the grid's, compared as text)
